@@ -302,6 +302,10 @@ class Program:
                                     imp.names = [a for a in imp.names if a.name != st.name]
                                 elif any(a.name == st.name for a in imp.names):
                                     imp.names = [ast.alias(name="__name__", asname="_jv_removed_import")]
+        # private NamedTuples that are new to the catalogue are dissolved into the tuples they name (jv/sroa.py)
+        from .sroa import scalarise
+        from .renames import reference as _reference
+        self.scalarised = scalarise([(short(n_), t_) for n_, _p, _s, t_, _k in processed], set(_reference()[1]))
         for name, path, src, tree, is_pkg in processed:
             tree = canonicalise(tree, short(name))
             m = Module(name, path, os.path.relpath(path, self.repo), src, tree, is_pkg)
